@@ -27,7 +27,7 @@
    Ghost: csig (the producer of the ticket has done its fetch_add on _events), stale (the last reset of _events to
    zero was the roll-back of a refused launch, not a consumer's exit). *)
 From Coq Require Import ZArith List Bool.
-Require Import Verif.Gen.Gen_execution_queue.
+Require Import Verif.Base.Atomics Verif.Gen.Gen_execution_queue Verif.Gen.Gen_execution_queue_sites.
 Import ListNotations.
 Local Open Scope Z_scope.
 
@@ -116,6 +116,12 @@ Definition consumer_exit (th : thread) : thread :=
 
 Definition consumer_thread : thread := {| prog := []; opi := 0; tpc := CStart; results := [] |}.
 
+(* Structure of the roll-back in start_consumer, read off the regenerated site table: the shipped code retries the
+   launch in a CAS loop (one compare_exchange_strong site).  A variant that retracts the launcher's own event with a
+   single fetch_sub is followed by the model as such, and re-opens the proofs (EQProofs.g_rb_kind). *)
+Definition rollback_is_fetch_sub : bool :=
+  match sites_start_consumer with [(KFsub, _, _)] => true | _ => false end.
+
 (* _events.fetch_add in signal_push_event *)
 Definition do_signal (s : st) (th : thread) (tk : option nat) : st * thread * list thread :=
   let prev := events s in
@@ -152,7 +158,9 @@ Definition step_thread (s : st) (t : nat) (th : thread) : option (st * thread * 
       else Some (s1, goto th (PRollback e), [consumer_thread])
     else Some (s1, goto th CStart, [])
   | PRollback e =>           (* while (!_events.compare_exchange_strong(events, 0)) *)
-    if Z.eqb (events s) (rollback_expected e) then
+    if rollback_is_fetch_sub then   (* not the shipped code: a launcher that only takes back its own event, no retry *)
+      Some (set_events s (events s - signal_amount) true, finish_op th (call_res th (-1)), [])
+    else if Z.eqb (events s) (rollback_expected e) then
       let s1 := set_events s rollback_desired true in
       if rollback_retries 1 then Some (s1, goto th (PSubmit e), []) else Some (s1, finish_op th (call_res th (-1)), [])
     else
